@@ -11,6 +11,7 @@ import OpmVerif.Proofs.UdqEval
 import OpmVerif.Proofs.UdqFuel
 import OpmVerif.Proofs.UdqState
 import OpmVerif.Proofs.UdqType
+import OpmVerif.Proofs.UdqLex
 
 namespace OpmVerif.Props.C17
 open OpmVerif.Udq OpmVerif.Gen.UdqEnums
@@ -198,6 +199,19 @@ theorem fixed_chain_type (t0 : VarT) (acc : TAcc) (v : VarT) (h : buildFix t0 ac
     (t : VarT) (ht : t = t0 ∨ t ∈ acc.map (·.2.2)) (hn : isNoMix t = true) : v = t :=
   buildFix_restricted_wins t0 acc v h t ht hn
 
+/-- DEFINE record tokenisation (`Model/UdqLex.lean`: `quote_split`, `next_token`,
+`normalize_string_tokens`, `make_udq_tokens` of UDQDefine.cpp).  `next_token` always returns a
+non-empty prefix of the rest of the item, so the `while (offset < item.size())` loop terminates on
+every string … -/
+theorem next_token_progress (c : Char) (r : Lex.Str) :
+    Lex.nextToken (c :: r) ≠ [] ∧ ∃ rest, c :: r = Lex.nextToken (c :: r) ++ rest :=
+  Lex.nextToken_prefix c r
+
+/-- … and the raw tokens of an item concatenate to the item: no character is lost, duplicated or
+reordered by the splitting (numbers, names, operators, blanks), for every string. -/
+theorem define_tokens_concat (s : Lex.Str) : (Lex.rawTokens s.length s).flatten = s :=
+  Lex.item_tokens_concat s
+
 /-- `^` has the same set semantics as the arithmetic operators (cast + element-wise + undefined
 propagation), so `eval_elementwise`, `eval_broadcast` and `undefined_propagates` apply to it. -/
 theorem pow_is_elementwise {α : Type} (F : Fns α) (l r : USet α) : powSet F l r = arith F F.pow l r :=
@@ -265,6 +279,13 @@ example : (match parseTyped .field_var [wopr, plusTok, one, plusTok, one] with
 example : parseTyped .field_var [lpTok, wopr, plusTok, one, rpTok, plusTok, one] = .typeError := by decide +kernel
 example : buildFix .well_var [(op .binary_op_add "+", num 1, .scalar), (op .binary_op_add "+", num 1, .scalar)] = some .well_var := by
   decide +kernel
+
+/-- `WOPR'P*'*1.5E-3-(2)` -/
+example : (match Lex.tokenize ["WOPR'P*'*1.5E-3-(2)".toList] with
+    | .ok ts => ts.map (fun t => String.ofList t.text) | _ => []) = ["WOPR", "*", "1.5E-3", "-", "(", "2", ")"] := by
+  decide +kernel
+/-- a table look-up without `]`: the code runs past the end of its token vector -/
+example : (match Lex.tokenize ["TU_FBHP[FOPR".toList] with | .pastEnd => true | _ => false) = true := by decide +kernel
 
 example : okRest 3 [⟨.binary_op_add, .str "+", []⟩] := by simp [okRest, allowed]; decide
 
